@@ -777,11 +777,6 @@ func (c *Client) handleSTUNMessage(data []byte, from net.Addr) error { //nolint:
 			}
 			relayedConn.HandleInbound(data, from)
 		case stun.MethodConnectionAttempt:
-			if !c.fromTURNServer(from) {
-				// Connection attempts are announced by the TURN server only.
-				return errRelayedDataFromStranger
-			}
-
 			var peerAddr proto.PeerAddress
 			if err := peerAddr.GetFrom(msg); err != nil {
 				return err
